@@ -435,8 +435,46 @@ func runProperty(id string, p propSpec, tier string, seed uint64, keep bool) int
 		}
 	}
 
+	// 2b. bounded native fuzzing (thorough tier only; skipped once a violation is known)
+	var fuzzNotes []map[string]any
+	if tier == "thorough" && violations == 0 && infra == "" {
+		for _, fz := range p.Fuzz {
+			note, fails, ferr := runFuzz(work, fz, id)
+			fuzzNotes = append(fuzzNotes, note)
+			if ferr != "" {
+				infra = ferr
+			}
+			for _, f := range fails {
+				b, err := os.ReadFile(f)
+				if err != nil {
+					continue
+				}
+				var rf replayFile
+				if json.Unmarshal(b, &rf) != nil {
+					continue
+				}
+				os.MkdirAll(regDir, 0o755)
+				name := fmt.Sprintf("%s-%s-%016x.json", id, sanitize(strings.TrimPrefix(rf.Check, id+".")), fnv64(b))
+				dst := filepath.Join(regDir, name)
+				if err := os.WriteFile(dst, b, 0o644); err != nil {
+					fatal2("write %s: %v", dst, err)
+				}
+				violations++
+				fmt.Printf("%s (native fuzz %s): %s\n", rf.Check, fz.Target, firstLines(rf.Message, 6))
+				rel, err := filepath.Rel(root, dst)
+				if err != nil || strings.HasPrefix(rel, "..") {
+					rel = dst
+				}
+				violationLines = append(violationLines, fmt.Sprintf("VIOLATION property=%s replay=%s", id, rel))
+			}
+		}
+	}
+
 	// 3. merge statistics and write evidence
 	ev := mergeEvidence(id, p, tier, seed, results, hooks, replayed, violations, time.Since(start).Seconds())
+	if ev != nil && len(fuzzNotes) > 0 {
+		ev["coverage"].(map[string]any)["native_fuzz"] = fuzzNotes
+	}
 	if ev != nil {
 		b, _ := json.MarshalIndent(ev, "", " ")
 		os.MkdirAll(filepath.Join(root, "evidence"), 0o755)
@@ -619,14 +657,14 @@ func mergeEvidence(id string, p propSpec, tier string, seed uint64, results []sh
 		}
 	}
 	cov := map[string]any{
-		"evaluations":         total,
-		"distinct_nontrivial": distinct,
-		"rule":                p.Rule,
-		"samples":             samples,
-		"sub_checks":          subOut,
-		"shards":              len(results),
+		"evaluations":          total,
+		"distinct_nontrivial":  distinct,
+		"rule":                 p.Rule,
+		"samples":              samples,
+		"sub_checks":           subOut,
+		"shards":               len(results),
 		"regressions_replayed": replayed,
-		"hooks_built":         hooks,
+		"hooks_built":          hooks,
 	}
 	if len(exclTotal) > 0 {
 		cov["excluded_by_known_finding"] = exclTotal
@@ -642,4 +680,46 @@ func mergeEvidence(id string, p propSpec, tier string, seed uint64, results []sh
 		"violations":  violations,
 	}
 	return ev
+}
+
+// runFuzz runs one native fuzz target for its wall budget. It returns a note
+// for the evidence file, the replay files written by failing checks, and an
+// infrastructure error message (empty when the run was clean or found a failure).
+func runFuzz(work string, fz fuzzSpec, id string) (map[string]any, []string, string) {
+	dir := filepath.Join(work, "fuzz-"+fz.Target)
+	os.MkdirAll(dir, 0o755)
+	ctx, cancel := context.WithTimeout(context.Background(), time.Duration(fz.Seconds+180)*time.Second)
+	defer cancel()
+	cmd := exec.CommandContext(ctx, "go", "test", "-vet=off", "-tags", "verif", "-run", "^$", "-fuzz", "^"+fz.Target+"$",
+		"-fuzztime", fmt.Sprintf("%ds", fz.Seconds), "-fuzzminimizetime", "5s", ".")
+	cmd.Dir = filepath.Join(root, "harness")
+	cmd.Env = append(goEnv, "VERIF_OUT="+dir, "VERIF_KNOWN="+filepath.Join(root, "KNOWN_FINDINGS.txt"), "VERIF_TIER=thorough")
+	out, err := cmd.CombinedOutput()
+	// crashers that Go stores in the package directory are not needed: the check wrote its own replay file
+	os.RemoveAll(filepath.Join(root, "harness", "testdata", "fuzz", fz.Target))
+	os.Remove(filepath.Join(root, "harness", "testdata", "fuzz"))
+	os.Remove(filepath.Join(root, "harness", "testdata"))
+	note := map[string]any{"target": fz.Target, "seconds": fz.Seconds}
+	execs := int64(0)
+	for _, line := range strings.Split(string(out), "\n") {
+		if i := strings.Index(line, "execs: "); i >= 0 {
+			var n int64
+			fmt.Sscanf(line[i+7:], "%d", &n)
+			if n > execs {
+				execs = n
+			}
+		}
+	}
+	note["executions"] = execs
+	fails, _ := filepath.Glob(filepath.Join(dir, "fail-*.json"))
+	if err != nil && len(fails) == 0 {
+		note["result"] = "inconclusive"
+		return note, nil, fmt.Sprintf("native fuzz target %s failed without a replay file:\n%s", fz.Target, tail(out, 2000))
+	}
+	if len(fails) > 0 {
+		note["result"] = "failure found"
+	} else {
+		note["result"] = "nothing found within the budget"
+	}
+	return note, fails, ""
 }
